@@ -80,9 +80,10 @@ def pose_params(draw, snap=True):
 
 @st.composite
 def labelling_params(draw):
-    return dict(seed=draw(st.integers(0, 2 ** 32 - 1)), relabel_v=draw(st.booleans()),
+    return dict(seed=draw(st.integers(0, 2 ** 32 - 1)), relabel_v=draw(st.sampled_from([False, True, "perm0"])),
                 relabel_e=draw(st.booleans()), relabel_c=draw(st.booleans()), shifts=draw(st.booleans()),
-                flips=draw(st.sampled_from(["none", "all", "mixed"])), flip_bits=None)
+                flips=draw(st.sampled_from(["none", "all", "mixed"])), flip_bits=None,
+                perm_cells=draw(st.booleans()))
 
 
 # --------------------------------------------------------------------------------------------- builders
